@@ -338,8 +338,9 @@ func runScenario(sc Scenario) (ob Obs) {
 	if (gerr == nil) != (gerr2 == nil) || len(mfs) != len(mfs2) {
 		ob.Unstable = true
 	} else {
+		// Gather orders the series of a family by label values only (not a total order): compare as multisets
 		for i := range mfs {
-			if !proto.Equal(mfs[i], mfs2[i]) {
+			if canonFamily(mfs[i]) != canonFamily(mfs2[i]) {
 				ob.Unstable = true
 			}
 		}
@@ -363,6 +364,16 @@ func runScenario(sc Scenario) (ob Obs) {
 		}
 	}
 	return
+}
+
+func canonFamily(mf *dto.MetricFamily) string {
+	var ms []string
+	for _, m := range mf.GetMetric() {
+		b, _ := proto.MarshalOptions{Deterministic: true}.Marshal(m)
+		ms = append(ms, string(b))
+	}
+	sort.Strings(ms)
+	return mf.GetName() + "\x00" + mf.GetHelp() + "\x00" + mf.GetType().String() + "\x00" + strings.Join(ms, "\x00")
 }
 
 func attrKVs(s attribute.Set) []KV {
@@ -599,8 +610,10 @@ func genName(r *vgen.Rand, unit string) string {
 }
 
 var keyPool = []string{"a.b", "a_b", "a-b", "a/b", "a b", "k", "key", "http.method", "http_method", "x.y.z", "x_y_z", "x.y_z",
-	"1a", "9", "A", "Zz", "dash-ed", "sl/ash", "sp ace", "é1", "ключ", "日本", "a.b.", ".a", "a..b", "a__b", "le", "quantile", "job", "instance", "m@n", "q?"}
-var knownKeys = []string{"a:b", ":", "x:y:z", "_.b", "..c", "__d", "-_e", "_-"}
+	"1a", "9", "A", "Zz", "dash-ed", "sl/ash", "sp ace", "é1", "xключ", "x日本", "a.b.", ".a", "a..b", "a__b", "le", "quantile", "job", "instance", "m@n", "q?"}
+
+// keys of the known class F-C18-2 (':' or a sanitised form starting with "__"); drawn rarely and never for resources
+var knownKeys = []string{"a:b", ":", "x:y:z", "_.b", "..c", "__d", "-_e", "_-", "ключ", "日本"}
 
 func genAttrVal(r *vgen.Rand, key string) AttrJ {
 	switch r.Intn(10) {
